@@ -59,6 +59,9 @@ def run(tier, seed):
     reps += reps2
     viol += viol2
     m = vc.merge_rsched(reps)
+    # the step function alone, under every delivery order and every legal GVT announcement
+    preps, pm, pviol = hc.proc_part(PID, d, tier)
+    viol += pviol
     if not viol:
         for k in ("fossil_releases", "rollbacks", "anti_extracted_processed", "ended_by_time", "ended_by_stop", "committed_events"):
             if hc.counters_nz(m, k) == 0:
@@ -73,8 +76,9 @@ def run(tier, seed):
                            "leave the history (timestamp < GVT) are compared, in order, with the per-LP sequence of the reference executor: "
                            "timestamp, type, payload, and the state hash published by the last forward execution; nothing at or above the "
                            "GVT may be released; non-trivial = execution in which fossil collection released entries")
+    hc.add_proc(cov, pm, preps)
     vc.write_evidence(PID, tier, "model_checking", cov,
-                      ["call-granularity interleavings, <= 3 threads, 1-2 ranks",
+                      ["call-granularity interleavings, <= 3 threads, 1-2 ranks", hc.PROC_ASSUMPTION,
                        "entries still held at shutdown are committed iff their timestamp is below the largest GVT reported to any thread"],
                       time.time() - t0, n, seed)
     return 1 if n else 0
@@ -83,5 +87,7 @@ def run(tier, seed):
 def replay(path):
     import os
     d = vc.fresh_dir(PID + "_replay")
+    if hc.is_proc_replay(path):
+        return vc.rsched_replay(hc.build_proc(d), path)
     ranks = 2 if os.path.basename(path).startswith("r2") else 1
     return vc.rsched_replay(hc.build(d, ranks=ranks), path)
